@@ -154,10 +154,19 @@ pub fn core_parts(rep: &mut Report, props: &[&str], checks: u32) {
             s.fault = packet_faults(3, if thorough { 5 } else { 4 }, CLASS_INPUT | CLASS_INPUT_ACK, PACKET_FATES.to_vec(), 1);
             scns.push(s);
         }
+        // the same deviations from the very first round (before any remote input has arrived)
+        for g in quick_grid().iter() {
+            let mut s = gp_scn("core-D0", g);
+            s.horizon = 8;
+            s.probe = 40;
+            s.checks = checks;
+            s.fault = packet_faults(0, if thorough { 4 } else { 3 }, CLASS_INPUT | CLASS_INPUT_ACK, PACKET_FATES.to_vec(), 1);
+            scns.push(s);
+        }
         let k = if thorough { 1 } else { 2 };
         let cfg = ExploreCfg { k: Some(k), wall: Duration::from_secs(if thorough { 900 } else { 40 }), ..Default::default() };
         let out = explore(&scns, &cfg, judge);
-        rep.absorb("A: packet drop/dup/delay(+2) and peer stall, window after 3 clean rounds", out, props,
+        rep.absorb("A: packet drop/dup/delay(+2) and peer stall, window after 3 clean rounds and window from round 0", out, props,
             json!({"k": k, "window_rounds": if thorough {5} else {4}, "classes": "Input,InputAck", "fates": "drop,dup,delay+2", "tick": "stall", "configs": scns.len(), "horizon_rounds": 14, "probe_rounds": 40}));
         if thorough {
             let mut scns = Vec::new();
@@ -264,9 +273,25 @@ pub fn core_parts(rep: &mut Report, props: &[&str], checks: u32) {
                 scns.push(s);
             }
         }
+        // late starters: one peer makes its first tick S rounds after the others
+        for g in &grid {
+            for late in 0..2usize {
+                for delay_rounds in [1, 2, 4, 7, 11] {
+                    let mut s = gp_scn("core-late-start", g);
+                    s.name = format!("{} late-peer={late} by={delay_rounds}", s.name);
+                    for r in 0..delay_rounds {
+                        s.scripted_stalls.push((late, r));
+                    }
+                    s.horizon = 40;
+                    s.probe = 30;
+                    s.checks = checks;
+                    scns.push(s);
+                }
+            }
+        }
         let cfg = ExploreCfg { k: Some(0), wall: Duration::from_secs(if thorough { 600 } else { 30 }), ..Default::default() };
         let out = explore(&scns, &cfg, judge);
-        rep.absorb("D: unequal tick rates (one peer ticks every 2nd/3rd round)", out, props, json!({"k": 0, "scenarios": scns.len()}));
+        rep.absorb("D: unequal tick rates (one peer ticks every 2nd/3rd round) and late starters (first tick 1..11 rounds after the others)", out, props, json!({"k": 0, "scenarios": scns.len()}));
     }
 }
 
